@@ -53,7 +53,8 @@ def build():
     u.verify(PA, "register_account", "acme_proto::account", props=["C11", "C04"], fns={"register_account": FnSpec(ret="r", ghost=True, sig=sigs["register_account"] + """
         // (the request is signed by the account's current key and carries the account's contacts: see the builder below)
 """, rewrites=[("T-CLOSURE", r"\|n: &str, url: &str\| \{\s*encode_jwk\(", "|n: &str, url: &str| -> (jws__: Result<String, Error>)\n"
-                "    ensures jws__ matches Ok(s__) ==> jwk_request(s__@, *kp_ref, crate::utf8_bytes(acc_ref@), url@, Some(n@)) //@C04.new_account_is_signed_by_the_account_key_over_the_account_object,C11.new_account_is_signed_by_the_account_key_over_the_account_object\n{\n\t\tencode_jwk(")])})
+                "    ensures jws__ matches Ok(s__) ==> jwk_request(s__@, *kp_ref, crate::utf8_bytes(acc_ref@), url@, Some(n@)) && signed_with(s__@, alg0__) //@C04.new_account_is_signed_by_the_account_key_over_the_account_object,C11.new_account_is_signed_by_the_account_key_over_the_account_object\n{\n\t\tencode_jwk(")],
+        at=[("before_stmt", "let data_builder", 1, "let ghost alg0__ = account.current_key.signature_algorithm;")])})
     u.verify(PA, "update_account_contacts", "acme_proto::account", props=["C11", "C04"], fns={"update_account_contacts": FnSpec(ret="r", ghost=True, sig=sigs["update_account_contacts"],
         rewrites=[("T-ITER", r"account\.contacts\.iter\(\)\.map\(\|c\| c\.to_string\(\)\)\.collect\(\)", "crate::pshims::contacts_to_strings(&account.contacts)"),
                   ("T-CLOSURE", r"move \|n: &str, url: &str\| \{\s*encode_kid\(", "move |n: &str, url: &str| -> (jws__: Result<String, Error>)\n"
@@ -61,5 +62,6 @@ def build():
         at=[("before_stmt", "let data_builder", 1, "let ghost ao__ = account_owned;")])})
     u.verify(PA, "update_account_key", "acme_proto::account", props=["C11", "C04"], fns={"update_account_key": FnSpec(ret="r", ghost=True, sig=sigs["update_account_key"],
         rewrites=[("T-CLOSURE", r"\|n: &str, url: &str\| \{\s*encode_kid\(", "|n: &str, url: &str| -> (jws__: Result<String, Error>)\n"
-                   "    ensures jws__ matches Ok(s__) ==> kid_request(s__@, *old_key, account_url@, crate::utf8_bytes(rollover_payload@), url@, n@) //@C04.key_change_outer_jws_is_signed_by_the_old_key,C11.key_change_outer_jws_is_signed_by_the_old_key\n{\n\t\tencode_kid(")])})
+                   "    ensures jws__ matches Ok(s__) ==> kid_request(s__@, *old_key, account_url@, crate::utf8_bytes(rollover_payload@), url@, n@) && signed_with(s__@, old_alg0__) //@C04.key_change_outer_jws_is_signed_by_the_old_key,C11.key_change_outer_jws_is_signed_by_the_old_key\n{\n\t\tencode_kid(")],
+        at=[("before_stmt", "let data_builder", 1, "let ghost old_alg0__ = old_account_key.signature_algorithm;")])})
     return u
